@@ -3,8 +3,12 @@
 # prints: tests result, demo with/without, check verdict. Worktree removed afterwards.
 pid=$1; patch=$(realpath $2); demo=$(realpath $3); tier=${4:-quick}; base=${5:-HEAD}
 wt=/tmp/ev_${pid}_$$
-git -C /repo worktree add -q --detach $wt $base || exit 2
+# prefer the current HEAD of /repo; fall back to the commit the change was written against
+git -C /repo worktree add -q --detach $wt HEAD || exit 2
 cd $wt
+if [ "$base" != "HEAD" ] && ! git apply --check $patch 2>/dev/null; then
+  cd /; git -C /repo worktree remove --force $wt; git -C /repo worktree add -q --detach $wt $base || exit 2; cd $wt
+fi
 echo "== base commit $(git rev-parse --short HEAD)"
 echo "== demo WITHOUT change"; PYTHONPATH=$wt timeout 300 /venv/bin/python $demo >/tmp/ev_demo0_$$.txt 2>&1; echo "rc=$?"; tail -3 /tmp/ev_demo0_$$.txt
 if ! git apply -3 $patch 2>/dev/null || git diff --name-only --diff-filter=U | grep -q .; then echo "PATCH DOES NOT APPLY (base $base)"; cd /; git -C /repo worktree remove --force $wt; exit 3; fi
